@@ -61,6 +61,9 @@ type ExecDouble struct {
 	mempool [][]byte
 	// FailNext makes the next n ExecuteTxs calls fail.
 	FailNext int
+	// EmptyRootNext makes the next n successful ExecuteTxs calls return an empty state root (an execution layer
+	// that has no root to report for a block); the root book then knows the empty root as "everything executed so far".
+	EmptyRootNext int
 	// FailFinal makes the next n SetFinal calls fail.
 	FailFinal int
 	Finals    []int
@@ -172,6 +175,10 @@ func (e *ExecDouble) ExecuteTxs(ctx context.Context, txs [][]byte, blockHeight u
 	}
 	hsh.Write([]byte{0xff})
 	root := hsh.Sum(nil)
+	if e.EmptyRootNext > 0 {
+		e.EmptyRootNext--
+		root = []byte{}
+	}
 	if known {
 		nl := make([]string, 0, len(prevIDs)+len(ids))
 		nl = append(nl, prevIDs...)
